@@ -34,3 +34,5 @@ KERNEL int K(k_et_adds_transpose_d)(SIGE){ db_t a; mkd(a,shape,data); BODY(view:
 using du_t = na::ndarray_t<nm::utl::vector<unsigned char>, nm::utl::vector<size_t>>;
 static inline bool mku(du_t& a, const size_t* shape, const unsigned char* data){ nm::utl::vector<size_t> s; s.resize(2); s[0] = shape[0]; s[1] = shape[1]; if (!a.resize(s)) return false; fill_n(&a.data_[0], data, shape[0]*shape[1]); return true; }
 KERNEL int K(k_et_adds_u)(SIGE){ du_t a; if (!mku(a,shape,data)) return -1; BODY(view::add(a, s)) }
+// two leaves: FIXED unsigned lhs (every cell = s) + utl-dynamic uint8 rhs: the default resolver's binary branch "rhs dynamic, view dynamic" must re-type the result to the view's element type
+KERNEL int K(k_et_add_fu)(SIGE){ std::array<std::array<unsigned,2>,1> l{}; l[0][0] = s; l[0][1] = s; du_t a; if (!mku(a,shape,data)) return -1; BODY(view::add(l, a)) }
